@@ -53,7 +53,7 @@ Definition mj_map_ss (l : list (string * string)) : json :=
 (** MatrixAdjustmentWith.MarshalJSON *)
 Definition mj_with (w : option (list (string * string))) : json :=
   match w with
-  | None => JNull
+  | None => mj_map_ss []          (* an adjustment without a with: {} in both formats (fix F20) *)
   | Some l => match l with
               | [(k, v)] => if String.eqb k "" then JStr v else mj_map_ss l
               | _ => mj_map_ss l
